@@ -23,6 +23,10 @@ theorem flags_init : Flags Life.init := flags_initWith false false
 the disconnect hook still runs and everything is still released -/
 theorem cleanup_survives_channel_close_error : Gen.Proto.cleanupSurvivesChannelCloseError = true := by decide
 
+/-- **obligation on the code** (measured on the live `Connection._dispatch`): a request made from inside the delivery of
+a response that meets the end of the transport closes the connection -/
+theorem dispatch_closes_on_eof : Gen.Proto.dispatchClosesOnEof = true := by decide
+
 /-- **obligation on the code** (measured): a second `_cleanup` on the same connection returns quietly -/
 theorem cleanup_idempotent : Gen.Proto.cleanupIdempotent = true := by decide
 
@@ -228,6 +232,20 @@ theorem step_flags (l l' : Life) (e : Ev) (hs : step l e = some l') (h : Flags l
       · exact h.done
       · exact h.inc
       · exact h.tab
+  | failSendNested s r =>
+    simp only [step, dispatch_closes_on_eof, if_true] at hs
+    split at hs
+    · cases hs
+    · simp only [Option.some.injEq] at hs; subst hs
+      apply resolveBlocked_flags
+      have h' : Flags { l with issued := l.issued ++ [s], chanClosed := true, outcomes := l.outcomes ++ [(s, .eof)] } := by
+        constructor
+        · exact h.hook
+        · intro hc; exact ⟨(h.cl hc).1, rfl, (h.cl hc).2.2⟩
+        · exact h.done
+        · exact h.inc
+        · exact h.tab
+      exact (closeCall_flags r _ h').1
   | failSendReply ref r =>
     simp only [step] at hs
     simp only [Option.some.injEq] at hs; subst hs
@@ -391,6 +409,17 @@ theorem step_nnv (l l' : Life) (e : Ev) (hs : step l e = some l') (hne : ∀ s v
       rcases hm with hm | hm
       · exact hm
       · cases hm.2
+  | failSendNested s r =>
+    simp only [step, dispatch_closes_on_eof, if_true] at hs
+    split at hs
+    · cases hs
+    · simp only [Option.some.injEq] at hs; subst hs
+      refine nnv_close_resolve r l _ ⟨rfl, ?_⟩
+      intro t v hm
+      simp only [List.mem_append, List.mem_singleton, Prod.mk.injEq] at hm
+      rcases hm with hm | hm
+      · exact hm
+      · cases hm.2
   | failSendReply ref r =>
     simp only [step, Option.some.injEq] at hs; subst hs
     exact nnv_close_resolve r l _ (nnv_of_lists rfl rfl)
@@ -546,6 +575,14 @@ theorem step_chanClosed (l l' : Life) (e : Ev) (hs : step l e = some l') (hi : F
     split at hs
     · cases hs
     · simp only [Option.some.injEq] at hs; subst hs; rfl
+  | failSendNested s r =>
+    simp only [step, dispatch_closes_on_eof, if_true] at hs
+    split at hs
+    · cases hs
+    · simp only [Option.some.injEq] at hs; subst hs
+      have h' : Flags { l with issued := l.issued ++ [s], chanClosed := true, outcomes := l.outcomes ++ [(s, .eof)] } :=
+        hi.congr rfl rfl (by simp [hc]) rfl rfl rfl
+      exact (closeCall_flags r _ h').2.2.2 rfl
   | failSendReply ref r =>
     simp only [step, Option.some.injEq] at hs; subst hs
     have h' : Flags { l with chanClosed := true, tablesCleared := l.tablesCleared && !boxRegisters l.chanClosed ref } := by
@@ -608,6 +645,12 @@ theorem step_no_new_block (l l' : Life) (e : Ev) (hs : step l e = some l') (hc :
     split at hs
     · cases hs
     · simp only [Option.some.injEq] at hs; subst hs; exact Nat.le_refl _
+  | failSendNested s r =>
+    simp only [step, dispatch_closes_on_eof, if_true] at hs
+    split at hs
+    · cases hs
+    · simp only [Option.some.injEq] at hs; subst hs
+      simp [resolveBlocked]
   | failSendReply ref r =>
     simp only [step, Option.some.injEq] at hs; subst hs
     simp [resolveBlocked]
